@@ -89,4 +89,24 @@ theorem C14_pending_notifier_persists (σ : St) (x inp a b : Nat) (hw : σ.wait 
     ((stepRun σ x inp).2.th x).pc.pendF = true :=
   pendF_step σ x inp a b hw hp hn
 
+/-- C14 (senders are woken before a futures receiver waits — F7, F17): when an attempt of the blocking `recv` or of
+the shared-stream `poll` of a futures receiver ends with `Empty`, the next thing the thread does is `notify_all` on
+the senders' list (`nf true 12`); only then does it examine the slot to wait on (`w0`). The failed attempt may have
+pinned and released a slot that a sender found pinned. -/
+theorem C14_empty_attempt_wakes_senders_first (σ : St) (t j : Nat) (hf : (σ.hs (σ.th t).g).fut = true)
+    (ho : (σ.th t).outer = .recv ∨ (σ.th t).outer = .poll false) :
+    ((recvDone σ t .empty j).th t).pc = .nf true 12 := by
+  rcases ho with ho | ho <;> simp [recvDone, ho, hf, St.goto, St.setTh, upd]
+
+/-- … and the notification step really drains the senders' list and hands every task on it to the notifier -/
+theorem C14_notify_drains_senders (σ : St) (t inp k : Nat) (hpc : (σ.th t).pc = .nf true k) :
+    (stepRun σ t inp).2.pwaitL = [] := by
+  simp only [stepRun, hpc, if_true]
+  split
+  all_goals first
+    | rfl
+    | (simp [stepRun.startNotify2, St.goto, St.setTh, teardownStart]; done)
+    | (unfold afterNotify; split <;> simp [St.goto, St.setTh]; done)
+
+
 end MQ
